@@ -9,22 +9,24 @@ BAD_PATH_TAILS = ["|x:y", "|1:", "|L", "|:", "|1e9:0", "|B|", "||", "|2:2|é"]
 
 class C06(Property):
     id = "C06"
-    lean_module = "RosuModel.Props.C06"
+    lean_module = "RosuModel.Props.C06File"
     namespace = "Rosu.C06"
     design_ref = "5.6"
     required_theorems = ["editor_reject_no_effect", "metadata_reject_no_effect", "difficulty_reject_no_effect", "events_reject_no_effect",
                          "colors_reject_no_effect", "convertPathStr_fail_clean", "parse_preserves_clean", "rejected_no_trace", "clean_always",
-                         "cp_congr", "loop_congr", "pathStr_congr", "parse_congr", "runLines_congr", "rejected_line_absent"]
+                         "cp_congr", "loop_congr", "pathStr_congr", "parse_congr", "runLines_congr", "rejected_line_absent",
+                         "general_reject_no_effect", "rejected_step_obs", "step_congr", "feedAll_congr", "feedAll_clean", "finish_congr",
+                         "frame_eq_reach", "reach_append", "reach_clean", "rejected_line_absent_file"]
     partial_theorems = {
-        "whole-file lift": "rejected_line_absent is proved per section (record sections: state returned unchanged; hit objects: observable state unchanged for every "
-                           "continuation); the composition through the framing driver and the finaliser into `decode x = decode (x minus line i)` is evaluated on the "
-                           "implementation by the `c06` oracle rather than proved",
-        "timing points / general": "the reject-no-effect theorems for [TimingPoints] and [General] live with the timing model (Props/C12.lean) when that model is merged",
+        "version slot": "rejected_line_absent_file is stated for lines after the version slot (some non-blank line precedes the erased line) — a rejected record is always "
+                        "inside a section, hence after the first header, so this covers every rejected line; the lift from line lists to bytes is C10's utf8_lines / utf16_lines",
     }
     level_text = ("Lean 4 theorems over the section parser models: every record-section parser returns its state unchanged when it reports an error; for hit objects the only "
                   "state a failing line can touch is the path scratch — `curve_points` is empty between lines for every line sequence (clean_always), the scratch `vertices` "
                   "is never read before it is overwritten (parse_congr), hence erasing a rejected line from any sequence leaves the observable state identical for every "
-                  "continuation (rejected_line_absent). Tied to the code by per-line differential runs through the public parse_* functions (ok flags + states), and the property "
+                  "continuation (rejected_line_absent). FILE LEVEL (Props/C06File.lean): for the full Beatmap decoder, for every list of lines, a line that is handed to the parser "
+                  "of its section and rejected there can be erased without changing the decoded Beatmap (rejected_line_absent_file: framing fold of C05 + per-section no-effect "
+                  "theorems for all eight sections + observational congruence of every step + the finaliser never reads the path scratch). Tied to the code by per-line differential runs through the public parse_* functions (ok flags + states), and the property "
                   "itself — decode(file) == decode(file without the rejected line), for every rejected line — is evaluated on the real Beatmap decoder over generated and bundled files.")
     technique = "Lean 4 proof (state-frame lemmas + congruence over line sequences) + differential correspondence + file-level erase-the-line oracle"
     trusted_base = [
